@@ -769,6 +769,10 @@ def sync_case(case):
         rx = np.concatenate([np.zeros(d), np.tile(tx, 3)])[:3 * l] + noise
     else:                    # steady state: the periodic waveform delayed by d samples
         rx = np.roll(np.tile(tx, 3), d) + noise
+    pat = p
+    if form in ('i16', 'u8'):   # digitised records: ADC counts (int16) / raw scope bytes (uint8), uint8 slot pattern
+        rx = np.round(rx * 100).astype(np.int16) if form == 'i16' else np.clip(np.round((rx + 1.0) * 60), 0, 255).astype(np.uint8)
+        pat = np.asarray(p, dtype=np.uint8)
     rx.flags.writeable = False
     viol = []
     sig = f'SYNC(rx=3x PRBS7 waveform {"zero-padded" if form == "pad" else "cyclically"} delayed by d={d}, sps={sps}, noise#{k}, {form})'
@@ -777,7 +781,7 @@ def sync_case(case):
         if form == 'es':
             out, i = SYNC(electrical_signal(rx), binary_sequence(p))
         else:
-            out, i = SYNC(rx, p, sps)
+            out, i = SYNC(rx, pat, sps)
     except Exception as e:  # noqa
         if _lab_fn(e.__traceback__) is None:
             raise
@@ -827,6 +831,8 @@ def sync_cases(tier, seed):
             for form in ('nd', 'es', 'pad'):
                 for k in [-1] + list(range(K)):
                     cases.append((seed, sps, d, form, k))
+            for form in ('i16', 'u8'):          # integer-dtype records (one noise field each)
+                cases.append((seed, sps, d, form, 0))
     cases.sort(key=lambda c: (c[2], c[1], c[4], c[3]))
     short = [(seed, sps, n, form) for sps in (2, 4) for n in range(0, 127 * sps) for form in ('nd', 'es')]
     return cases, short
